@@ -31,12 +31,14 @@ var props = map[string]*PropDef{}
 
 var evidenceDir string
 
+var vacuityProbes int
+
 func registerProps() {
 	for _, p := range []*PropDef{
 		{ID: "C17", Title: "Source loading maps every file to its package and a real common root", DesignRef: "§4 C17"},
 		{ID: "C19", Title: "Declaration assembly is a set-like, order-independent merge", DesignRef: "§4 C19", Lemmas: []string{"sorted_perm_unique.lean"}, Trusted: []string{"lemma sorted_perm_unique (Lean 4 core, /verif/lemmas/sorted_perm_unique.lean, re-checked in the thorough tier): a key-sorted permutation whose equal-key elements are equal is unique; its hand correspondence with the SMT-level postconditions (sorted by (priority, ID); same elements)"}},
 		{ID: "C10", Title: "Enum detection is exact", DesignRef: "§4 C10"},
-		{ID: "C11", Title: "Union detection and membership are exact", DesignRef: "§4 C11", Trusted: []string{"completeness of (*Struct).setImplements (every analysed union listing the struct IS reported) is not proved: existential goal out of the solvers reach; exercised by the always-run bounded harness only"}},
+		{ID: "C11", Title: "Union detection and membership are exact", DesignRef: "§4 C11", Trusted: []string{}},
 		{ID: "C07", Title: "Generation is deterministic", DesignRef: "§4 C07", Ordind: true},
 		{ID: "C18", Title: "Unsupported input is refused with a diagnostic, never a crash", DesignRef: "§4 C18"},
 		{ID: "C20", Title: "Formatter probing is race-free, cached and optional", DesignRef: "§4 C20", Locks: true},
@@ -363,6 +365,47 @@ func runCheck(p *PropDef, tier string, seed int64) int {
 			fails = append(fails, o)
 		}
 	}
+	// 2b. vacuity probe (thorough tier, or GOVC_VACUITY=1): a discharged obligation whose negation is
+	// discharged too means the assumptions at that point are contradictory — every proof there is void
+	if tier == "thorough" || os.Getenv("GOVC_VACUITY") != "" {
+		var probes []*Obligation
+		back := map[*Obligation]*Obligation{}
+		deadExit := map[string]bool{} // exits proved unreachable (legitimate dead code such as defensive returns)
+		for _, o := range covers {
+			if o.Result == "unsat" {
+				if i := strings.Index(o.Name, "#cover:"); i >= 0 {
+					deadExit[o.Func+"@"+o.Name[i+len("#cover:"):]] = true
+				}
+			}
+		}
+		for _, o := range real {
+			if i := strings.LastIndex(o.Name, "@"); i >= 0 && deadExit[o.Func+o.Name[i:]] {
+				continue
+			}
+			if o.Result != "unsat" || o.Preset || o.Goal == "true" || (o.Kind != "post" && o.Kind != "inv" && o.Kind != "ordind") {
+				continue
+			}
+			p := *o
+			p.Name = o.Name + "$neg"
+			p.Goal = mkNot(o.Goal)
+			p.Result, p.Solver, p.AllOut = "", "", nil
+			pp := &p
+			probes = append(probes, pp)
+			back[pp] = o
+		}
+		popts := opts
+		popts.TimeoutS = 3
+		popts.All = false
+		solveAll(probes, popts)
+		for _, pp := range probes {
+			if pp.Result == "unsat" {
+				fmt.Fprintf(os.Stderr, "govc: CONTRADICTORY ASSUMPTIONS at %s: the obligation and its negation are both discharged [%s] %s\n", back[pp].Name, back[pp].Pos, back[pp].Text)
+				return 2
+			}
+		}
+		vacuityProbes = len(probes)
+	}
+
 	// vacuity: a function is vacuous when its entry is unreachable (contradictory requires / axioms)
 	// or when every one of its exits is (an inconsistent assumption inside the body). A single
 	// unreachable exit is legitimate (defensive code).
@@ -614,7 +657,8 @@ func (cc *checkCtx) buildEvidence(results []*FuncResult, real, covers []*Obligat
 	cov["solver_time_s"] = round3(solverTime)
 	cov["slowest"] = slowest
 	cov["samples"] = samples
-	cov["cover_checks"] = map[string]interface{}{"count": len(covers), "vacuous": vacuous, "rule": "for every function entry and every exit: (requires ∧ axioms ∧ path) must not be UNSAT"}
+	cov["cover_checks"] = map[string]interface{}{"count": len(covers), "vacuous": vacuous, "rule": "for every function entry and every exit: (requires ∧ axioms ∧ path) must not be UNSAT",
+		"negation_probes": vacuityProbes, "negation_rule": "thorough tier: for every discharged post/invariant obligation its negation must NOT be dischargeable (both provable = contradictory assumptions)"}
 	cov["termination_not_proved"] = termNot
 	cov["abstracted_functions"] = abstracted
 	if extra != nil {
